@@ -246,38 +246,47 @@ def tableToSymbols (dec : Decoder) : List PySymbol → Option (List PySymbol)
     | some s, some ss => some (s :: ss)
     | _, _ => none
 
-/-- `convert_to_int_or_none`: `None if np.isnan(field) else int(field)`; `np.isnan(None)` and `np.isnan('..')`
-    raise TypeError. -/
-def convertToIntOrNone : Cell → Option Cell
-  | .nan => some .none
+/-- `is_missing(field)`: `field is None or (isinstance(field, float) and np.isnan(field))` — `None` or a float NaN
+    (`numpy.float64` is a `float`); every other value (str, int, a float that holds a number, anything else) is
+    present. -/
+def isMissing : Cell → Bool
+  | .none => true
+  | .nan => true
+  | .str _ => false
+  | .int _ => false
+  | .flt _ => false
+  | .other _ => false
+
+/-- `int(field)` on a present cell: an int stays, the float that holds `i` becomes `i`.  `none` = raises.
+    (`int(None)` / `int(nan)` raise TypeError / ValueError but are never reached: `is_missing` is tested first.
+    A str / any other object in a `lags` / `leads` cell is outside the domain of the model — `int('x')` raises
+    ValueError, `int('12')` would parse; `symbols_to_dataframe` never produces such a cell and no theorem or
+    comparison depends on this branch — and is modelled as a raise.) -/
+def pyInt : Cell → Option Cell
   | .int i => some (.int i)
   | .flt i => some (.int i)
+  | .nan => none
   | .none => none
   | .str _ => none
   | .other _ => none
 
-/-- The decoder of the code as it is: only `lags` / `leads` are converted, `name` / `equation` / `code` are
-    passed on as they come. -/
+/-- `convert_to_int_or_none`: `None if is_missing(field) else int(field)`. -/
+def convertToIntOrNone (c : Cell) : Option Cell :=
+  if isMissing c then some .none else pyInt c
+
+/-- `convert_to_str_or_none`: `None if is_missing(field) else field` (never raises; a present value of any type is
+    passed on as it comes). -/
+def convertToStrOrNone (c : Cell) : Option Cell :=
+  if isMissing c then some .none else some c
+
+/-- The decoder of the code: `lags` / `leads` through `convert_to_int_or_none`, `name` / `equation` / `code`
+    through `convert_to_str_or_none`.
+    (Before 56f842e `name` / `equation` / `code` were passed on as they came and `convert_to_int_or_none` tested
+    `np.isnan(field)`, which raises TypeError on `None`: a missing str came back as NaN and an all-missing
+    `lags` / `leads` column made the call raise.) -/
 def codeDecoder : Decoder :=
-  { name := some, lags := convertToIntOrNone, leads := convertToIntOrNone, equation := some, code := some }
-
-/-- Candidate patch: missing (`None` or `NaN`) -> `None` in every optional field. -/
-def missingToNone : Cell → Option Cell
-  | .nan => some .none
-  | .none => some .none
-  | c => some c
-
-def intOrNoneFixed : Cell → Option Cell
-  | .nan => some .none
-  | .none => some .none
-  | .int i => some (.int i)
-  | .flt i => some (.int i)
-  | .str _ => none
-  | .other _ => none
-
-def fixedDecoder : Decoder :=
-  { name := missingToNone, lags := intOrNoneFixed, leads := intOrNoneFixed, equation := missingToNone,
-    code := missingToNone }
+  { name := convertToStrOrNone, lags := convertToIntOrNone, leads := convertToIntOrNone,
+    equation := convertToStrOrNone, code := convertToStrOrNone }
 
 /-! ### The installed pandas (reflected) -/
 
